@@ -58,7 +58,9 @@ PTR_CAST = {'core::ptr::const_ptr::<impl *const T>::cast', 'core::ptr::mut_ptr::
 PTR_ADD = {'core::ptr::const_ptr::<impl *const T>::add', 'core::ptr::mut_ptr::<impl *mut T>::add',
            'core::ptr::const_ptr::<impl *const T>::byte_add', 'core::ptr::mut_ptr::<impl *mut T>::byte_add'}
 SLICE_PTR = {'core::slice::<impl [T]>::as_ptr': False, 'core::slice::<impl [T]>::as_mut_ptr': True,
-             'core::array::<impl [T; N]>::as_ptr': False, 'core::array::<impl [T; N]>::as_mut_ptr': True}
+             'core::array::<impl [T; N]>::as_ptr': False, 'core::array::<impl [T; N]>::as_mut_ptr': True,
+             # the buffer held as one MaybeUninit<[u8; CAP]>
+             'core::mem::maybe_uninit::MaybeUninit::<T>::as_ptr': False, 'core::mem::maybe_uninit::MaybeUninit::<T>::as_mut_ptr': True}
 
 
 def pointer_chain(body, defs, op):
@@ -512,6 +514,9 @@ def origin_class(crate, b, defs, op, depth=0):
     if t[0] == 'rv':
         return {'rv:%s' % t[1]['k']}
     if t[0] == 'ref':
+        if not t[2]['p'] and not (1 <= t[2]['l'] <= b.arg_count):
+            # a reference to a local: where the local's value comes from
+            return {'ref:' + x for x in origin_class(crate, b, defs, {'copy': {'l': t[2]['l'], 'p': [], 'ty': None}}, depth + 1)}
         return {'ref'}
     return {str(t[0])}
 
@@ -702,6 +707,11 @@ def truc_rule_table(ctx, crate):
                 ok = a3[-1][0] == 'call' and callee_path(a3[-1][1]) == 'alloc::collections::btree::map::BTreeMap::<K, V, A>::get'
             elif ok and t3[0] == 'call' and callee_path(t3[1]) == 'alloc::collections::btree::map::BTreeMap::<K, V, A>::get':
                 pass
+            elif ok and t3[0] == 'place' and [e.get('name') for e in t3[1]['p'] if isinstance(e, dict) and 'downcast' in e] == ['Some']:
+                # `match self.types.get(..) { Some(entry) => entry…clone(), None => <diverges> }`: the only
+                # definition of the result is the clone of the entry, so the other arm cannot answer
+                g = trace_value(b, defs, {'copy': {'l': t3[1]['l'], 'p': [], 'ty': None}})[-1]
+                ok = g[0] == 'call' and callee_path(g[1]) == 'alloc::collections::btree::map::BTreeMap::<K, V, A>::get' and len([d for d in defs.get(0, []) if not b.blocks[d[1]]['cleanup']]) == 1
             else:
                 ok = False
         wr = [s for _, _, s in b.statements() if s['k'] == 'assign' and any(isinstance(e, dict) and e.get('adt', '').startswith(R) for e in s['place']['p'])]
@@ -951,6 +961,30 @@ def truc_rule_offsets(ctx, crate):
         ins = fn.get('inputs') or []
         is_strategy = ins[:3] == STRATEGY_SIG and len(ins) == 4
         if not in_strategy_module(b) or not is_strategy:
+            # a closure a strategy hands to for_each over the ids it was given: its parameter carries
+            # the provenance of the iterated values
+            ctxs = []
+            if b.def_kind == 'Closure':
+                for sb in crate.bodies:
+                    sfn = crate.fns.get(sb.path, {})
+                    sins = sfn.get('inputs') or []
+                    if sins[:3] == STRATEGY_SIG and len(sins) == 4 and in_strategy_module(sb) and b in crate.closures_of(sb.path):
+                        sdefs = local_defs(sb)
+                        staint = taint_ids(sb, {1: {'OLD'}, 2: {'ADD'}, 3: {'REMOVE'}})
+                        for fbb, ft, fcb, flab, frv in for_each_closures(crate, sb, sdefs, staint):
+                            if fcb is b:
+                                ctxs.append((sb, flab))
+            if ctxs:
+                for sb, flab in ctxs:
+                    ctaint = taint_ids(b, {2: set(flab)})
+                    for bb, t in sites:
+                        ncs += 1
+                        a = t['args'][helper[callee_path(t)] - 1]
+                        labels = ctaint[op_place(a)['l']]
+                        ctx.inst('W1c-call', '%s (for_each closure) calls %s with an id of provenance %s at %s' % (sb.path.split('::')[-1], callee_path(t).split('::')[-1], sorted(labels), fmt_span(t['span'])))
+                        if 'OLD' in labels or 'REMOVE' in labels or 'ADD' not in labels:
+                            ctx.add(['C03'], 'W1c', b.key, 'the strategy places (through %s) a datum whose id has provenance %s at %s: only data being added may be placed' % (callee_path(t).split('::')[-1], sorted(labels), fmt_span(t['span'])), key='%s|helper-provenance' % b.key)
+                continue
             for bb, t in sites:
                 ctx.add(['C03'], 'W1c', b.key, 'offset-writing helper %s is called at %s from code that is not a variant-closing strategy' % (callee_path(t).split('::')[-1], fmt_span(t['span'])), key='%s|helper-call' % b.key)
             continue
@@ -1147,6 +1181,10 @@ def err_blocks(b):
     for bb, si, st in b.statements():
         if st['k'] == 'assign' and st['place']['l'] == 0 and st['rv']['k'] == 'aggregate' and st['rv'].get('adt') == 'core::result::Result' and st['rv'].get('variant') == 'Err':
             out.append(bb)
+    # an error propagated with `?`: `_0 = from_residual(..)`
+    for bb, t in b.calls():
+        if (callee_path(t) or '').endswith('::from_residual') and t['dest']['l'] == 0 and not t['dest']['p'] and not b.blocks[bb]['cleanup']:
+            out.append(bb)
     return out
 
 
@@ -1188,14 +1226,39 @@ def truc_rule_builder(ctx, crate):
                     name_arg = trace_value(b, defs, inner[1]['args'][1])
                     free_truth = (not is_some) != si[2]       # truth value of the switch operand meaning "name is free"
                     guard = (bb, edge_for(b, bb, free_truth), edge_for(b, bb, not free_truth))
-        if len(push) != 1 or guard is None:
+        by_paths = None
+        if len(push) == 1 and guard is None:
+            # no `is_some()` switch: follow every path to the push with what it learnt about the answer of the
+            # lookup (a `match`, a helper returning Result and `?`, …)
+            import convcheck
+            try:
+                pts = convcheck.tail_paths(b, 0, None, roots=lambda tm: ('lookup',) if callee_path(tm) == GB + 'get_current_datum_definition_by_name' else None)
+                seen_push = 0
+                by_paths = True
+                for pt in pts:
+                    for (bb_, tm, av, snap) in pt['calls']:
+                        if callee_path(tm) == DDC + 'push':
+                            seen_push += 1
+                            if snap.get(('lookup',)) != 'None':
+                                by_paths = False
+                if not seen_push:
+                    by_paths = None
+            except convcheck.CUnanalysable:
+                by_paths = None
+        if len(push) != 1 or (guard is None and by_paths is None):
             ctx.add(['C12'], 'B-GUARD-DUP', b.key, 'add_datum: cannot find the single datum_definitions.push (%d) guarded by the duplicate-name lookup (%s)' % (len(push), guard), key='shape')
         else:
-            reach = b.reachable(0, unwind=False, removed_edges=[(guard[0], guard[1])])
-            if push[0] in reach:
-                ctx.add(['C12'], 'B-GUARD-DUP', b.key, 'a datum can be pushed without the duplicate-name lookup having answered "free"', key='bypass')
+            if guard is None:
+                if by_paths:
+                    ctx.inst('B-GUARD-DUP', 'every path to the push has seen the lookup answer None')
+                else:
+                    ctx.add(['C12'], 'B-GUARD-DUP', b.key, 'a datum can be pushed without the duplicate-name lookup having answered "free"', key='bypass')
             else:
-                ctx.inst('B-GUARD-DUP', 'push is reachable only through the "name is free" edge bb%d->bb%d' % (guard[0], guard[1]))
+                reach = b.reachable(0, unwind=False, removed_edges=[(guard[0], guard[1])])
+                if push[0] in reach:
+                    ctx.add(['C12'], 'B-GUARD-DUP', b.key, 'a datum can be pushed without the duplicate-name lookup having answered "free"', key='bypass')
+                else:
+                    ctx.inst('B-GUARD-DUP', 'push is reachable only through the "name is free" edge bb%d->bb%d' % (guard[0], guard[1]))
             # data_to_add.push(id) with id = the result of that push
             dta = [(bb, t) for bb, t in b.calls() if callee_path(t) == 'alloc::vec::Vec::<T, A>::push' and (self_field_of(b, defs, t['args'][0]) or [None])[0] == ['data_to_add']]
             okid = len(dta) == 1 and trace_value(b, defs, dta[0][1]['args'][1])[-1][0] == 'call' and callee_path(trace_value(b, defs, dta[0][1]['args'][1])[-1][1]) == DDC + 'push'
@@ -1817,8 +1880,12 @@ def truc_rule_replay(ctx, crate):
                     carried[l] = True
                     return 'prev'
             return None
+        dt = None
         if s[0] == 'call' and (callee_path(s[1], resolved=False) or '').endswith('Iterator::collect'):
             dt = trace_value(b, defs, s[1]['args'][0])[-1]
+        elif s[0] == 'call' and callee_path(s[1]) == T + 'RecordVariant::data':
+            dt = s        # the iterator over a variant's data, not collected
+        if dt is not None:
             if dt[0] == 'call' and callee_path(dt[1]) == T + 'RecordVariant::data':
                 x = trace_value(b, defs, dt[1]['args'][0])[-1]
                 if zipped and x[0] == 'place':
@@ -2099,6 +2166,21 @@ def truc_rule_current(ctx, crate):
 
 
 
+def for_each_closures(crate, b, defs, taint):
+    """Closures of `b` (and of the helpers inlined into it) handed to `Iterator::for_each`: yields
+    (call block, call term, closure body, labels of the iterated values)."""
+    out = []
+    for bb, t in b.calls():
+        if (callee_path(t, resolved=False) or '').endswith('Iterator::for_each') and len(t['args']) == 2:
+            cl = trace_value(b, defs, t['args'][1])[-1]
+            if cl[0] == 'rv' and cl[1].get('ak') == 'closure':
+                cb = crate.lookup(cl[1]['closure'])
+                pl = op_place(t['args'][0])
+                if cb is not None and pl is not None:
+                    out.append((bb, t, cb, set(taint[pl['l']]), cl[1]))
+    return out
+
+
 def truc_rule_once(ctx, crate):
     """B-ONCE (C12): in every shipped strategy, each iteration of the loop over the ids being
     added performs exactly one list insertion (Vec::push / Vec::insert on the data list, or push_datum)."""
@@ -2113,6 +2195,18 @@ def truc_rule_once(ctx, crate):
     for b in strategies:
         defs = local_defs(b)
         taint = taint_ids(b, {1: {'OLD'}, 2: {'ADD'}, 3: {'REMOVE'}})
+
+        def is_the_list(l):
+            """local 1 (the list handed to the strategy), possibly moved under another name (a helper's `mut data`)"""
+            for _ in range(6):
+                if l == 1:
+                    return True
+                ds = [d for d in defs.get(l, []) if not b.blocks[d[1]]['cleanup']]
+                if len(ds) == 1 and ds[0][0] == 'stmt' and ds[0][3]['rv']['k'] == 'use' and 'move' in ds[0][3]['rv']['op'] and op_local(ds[0][3]['rv']['op']) is not None:
+                    l = op_local(ds[0][3]['rv']['op'])
+                    continue
+                return False
+            return False
         def insertion_blocks():
             out = []
             for bb, t in b.calls():
@@ -2120,7 +2214,7 @@ def truc_rule_once(ctx, crate):
                 idop = None
                 if p in ('alloc::vec::Vec::<T, A>::push', 'alloc::vec::Vec::<T, A>::insert'):
                     r = trace_value(b, defs, t['args'][0])[-1]
-                    if r[0] == 'ref' and not r[2]['p'] and r[2]['l'] == 1:
+                    if r[0] == 'ref' and not r[2]['p'] and is_the_list(r[2]['l']):
                         idop = t['args'][-1]
                 elif p.endswith('NativeDataUpdater>::push_datum'):
                     idop = t['args'][2]
@@ -2136,9 +2230,39 @@ def truc_rule_once(ctx, crate):
             dp = callee_path(t, resolved=False) or ''
             if dp.endswith('Extend::extend') or p.endswith('::extend_from_slice') or p.endswith('Vec::<T, A>::append') or p.endswith('::extend'):
                 r = trace_value(b, defs, t['args'][0])[-1]
-                if r[0] == 'ref' and not r[2]['p'] and r[2]['l'] == 1 and len(t['args']) > 1 and op_place(t['args'][1]):
+                if r[0] == 'ref' and not r[2]['p'] and is_the_list(r[2]['l']) and len(t['args']) > 1 and op_place(t['args'][1]):
                     lab = taint[op_place(t['args'][1])['l']]
                     bulk.append((bb, lab, t))
+        for fbb, ft, fcb, flab, frv in for_each_closures(crate, b, defs, taint):
+            # `ids.for_each(|id| list.push_datum(defs, id))`: one insertion of the closure's parameter per element
+            cdefs = local_defs(fcb)
+            cins = []
+            for cbb, ct in fcb.calls():
+                cp = callee_path(ct) or ''
+                if cp.endswith('NativeDataUpdater>::push_datum'):
+                    cins.append((ct, ct['args'][2], ct['args'][0]))
+                elif cp in ('alloc::vec::Vec::<T, A>::push',):
+                    cins.append((ct, ct['args'][1], ct['args'][0]))
+            loops = [x for x in range(len(fcb.blocks)) if x in fcb.reachable(fcb.blocks[x]['term'].get('t'), unwind=False)] if False else []
+            one = len(cins) == 1 and trace_value(fcb, cdefs, cins[0][1])[-1] == ('param', 2)
+            if one:
+                # the receiver is the captured list
+                recv = trace_value(fcb, cdefs, cins[0][2])[-1]
+                cap_ok = False
+                if recv[0] == 'place' or recv[0] == 'ref':
+                    plx = recv[1] if recv[0] == 'place' else recv[2]
+                    fidx = [e['f'] for e in plx['p'] if isinstance(e, dict) and 'f' in e]
+                    if plx['l'] == 1 and fidx:
+                        cap = frv['fields'][fidx[0]] if fidx[0] < len(frv['fields']) else None
+                        if cap is not None:
+                            r0 = trace_value(b, defs, cap)[-1]
+                            cap_ok = r0[0] == 'ref' and not r0[2]['p'] and is_the_list(r0[2]['l'])
+                # single pass over the closure body (no loop, every return after the insertion)
+                ins_bb = [cbb for cbb, ct in fcb.calls() if ct is cins[0][0]][0]
+                rets = [i for i, blk in enumerate(fcb.blocks) if blk['term']['k'] == 'return']
+                straight = not any(r in fcb.reachable(0, unwind=False, removed_blocks=[ins_bb]) for r in rets) and ins_bb not in fcb.reachable(fcb.blocks[ins_bb]['term']['t'], unwind=False)
+                if cap_ok and straight:
+                    bulk.append((fbb, flab, ft))
         for bb, idop, t in ins:
             lab = taint[op_place(idop)['l']] if op_place(idop) else set()
             if 'ADD' not in lab or 'OLD' in lab or 'REMOVE' in lab:
@@ -2207,7 +2331,7 @@ def truc_rule_once(ctx, crate):
             p = callee_path(t) or ''
             if p == 'alloc::vec::Vec::<T, A>::retain' or p.endswith('NativeDataUpdater>::remove_data'):
                 r = trace_value(b, defs, t['args'][0])[-1]
-                if r[0] == 'ref' and not r[2]['p'] and r[2]['l'] == 1:
+                if r[0] == 'ref' and not r[2]['p'] and is_the_list(r[2]['l']):
                     rem = True
         if not rem:
             ctx.add(['C12'], 'B-ONCE', b.key, 'the strategy does not remove data_to_remove from the list', key='%s|remove' % b.path.split('::')[-1])
